@@ -180,13 +180,17 @@ class GroundedPrecondition:
         )
         positive_condition_predicate = condition.copy()
         positive_condition_predicate.is_positive = True
-
+        # a literal is tested by membership among the state's facts (identified by their untyped form), not by a
+        # substring search in the serialized state where a numeric fluent with the same name would match as well.
+        fact_text = positive_condition_predicate.untyped_representation
+        fact_in_state = any(
+            state_predicate.untyped_representation == fact_text
+            for state_predicates in state.state_predicates.values()
+            for state_predicate in state_predicates
+        )
         is_applicable = BinaryOperator[preconditions.binary_operator](
             prev_is_applicable,
-            condition.untyped_representation in state.serialize()
-            if condition.is_positive
-            else positive_condition_predicate.untyped_representation
-            not in state.serialize(),
+            fact_in_state if condition.is_positive else not fact_in_state,
         )
         return is_applicable
 
